@@ -346,7 +346,9 @@ PLAN["C19"] = {
                    "given that, memory_list_stream::write emits exactly the blocks of this dump and exception_stream::write only a context set in this dump (Verus); "
                    "the same entry obligation is checked on the real callees' signatures by a Kani harness (thorough) and on live targets natively",
     "verus": [dict(STACK, functions=["memory_list_stream_write", "exception_stream_write"], tags=["C19"]),
-              {"unit": "dump", "functions": ["dump"], "tags": ["C19"], "tiers": Q}, TLIST("C19")],
+              {"unit": "dump", "functions": ["dump", "new", "set_minidump_size_limit", "set_user_mapping_list", "set_principal_mapping_address", "set_app_memory",
+                                              "set_crash_context", "skip_stacks_if_mapping_unreferenced", "sanitize_stack", "stop_timeout", "set_direct_auxv_dump_info"],
+               "tags": ["C19"], "tiers": Q}, TLIST("C19")],
     "twins": {"dump": ["native:c19_reuse::second_dump_of_a_reused_writer_equals_a_fresh_one", "native:c19_reuse::reused_writer_after_failed_requests",
                        "native:c19_reuse::reused_writer_with_unresolvable_principal_address", "native:c19_reuse::reused_writer_with_another_blamed_thread"]},
     "kani": [G_DUMP],
@@ -596,7 +598,7 @@ LEVEL_TEXT = {
     "C16": "unbounded proof for every Buffer/MemoryWriter/MemoryArrayWriter function Verus can read (all inputs, all buffer states); complete Kani proofs of the per-type size facts; alloc_from_array proved for any array length (loop head desugared by the extractor, recorded in the evidence); bounded Kani checks (stated bounds) of alloc_from_iter/write_string_to_location",
     "C17": "bounded: destinations of 3, 8, 11, 17 bytes, every source alignment and every readable interval for the ptrace strategy (Kani); all three strategies on a live child around a mapping end, 6144 reads (native); strategy selection complete (Kani)",
     "C18": "complete proofs of two pure conversions, bounded-exhaustive check of auxv precedence; the content-equality clauses (kernel data) are not decidable here",
-    "C19": "unbounded proof on the verbatim text of dump() that, for every incoming writer state, generate_dump receives the per-request state of a fresh writer and the configuration is unchanged; unbounded proofs that the two consumers emit only that state; the same obligation through the real callees by a complete Kani control-flow harness (thorough); native reuse histories incl. failed requests on live children",
+    "C19": "unbounded proof on the verbatim text of dump() that, for every incoming writer state satisfying the writer invariant, generate_dump receives the per-request state of a fresh writer and the configuration is unchanged; the invariant itself is established by new() and kept by all nine configuration methods (proved verbatim), so the argument iterates over any API history; unbounded proofs that the two consumers emit only that state; the same obligation through the real callees by a complete Kani control-flow harness (thorough); native reuse histories incl. failed requests on live children",
     "C20": "unbounded proof of the keep/drop rule for stacks under skip-unreferenced and of the stack scanner itself (stack copies of any length, relative to a byteorder stand-in that Kani cross-checks at stated lengths)",
 }
 NOT_APPLICABLE = {}
